@@ -121,9 +121,7 @@ bool Exec<Cfg>::run_real(Op const& op) {
 			} break;
 			case O_CTOR_COPY: { Arr<D> const& b = pool<D>().at(op.b); OpScope s; new(raw) Arr<D>(b); } break;
 			case O_CTOR_COPY_ALLOC: { Arr<D> const& b = pool<D>().at(op.b); OpScope s; new(raw) Arr<D>(b, al); } break;
-			case O_CTOR_MOVE:
-				if constexpr(!Cfg::static_arrays) { Arr<D>& b = pool<D>().at(op.b); OpScope s; new(raw) Arr<D>(std::move(b)); }
-				break;
+			case O_CTOR_MOVE: { Arr<D>& b = pool<D>().at(op.b); OpScope s; new(raw) Arr<D>(std::move(b)); } break;
 			case O_CTOR_MOVE_ALLOC:
 				if constexpr(!Cfg::static_arrays) { Arr<D>& b = pool<D>().at(op.b); OpScope s; new(raw) Arr<D>(std::move(b), al); }
 				break;
